@@ -221,14 +221,17 @@ NoVerify(i) ==
 NoInst == MaxInst + 1
 \*          "userfresh": like "user", and a destructor running during the unwinding builds a fresh mock with an
 \*                      unmet expectation and drops it again (a scope guard's cleanup code): silent as well
-Origins == {"user", "userfresh", "mock", "real", "default", "matcher", "clone"}
+\*          "explicit" : the call hits a `.panics(msg)` response: recorded like any mock-induced error, then the mock panics
+\*          "argdebug" : the same call, but the Debug rendering of its argument (for the error text) panics: the
+\*                       error never comes into being, nothing is recorded; a user panic like "matcher"
+Origins == {"user", "userfresh", "mock", "explicit", "argdebug", "real", "default", "matcher", "clone"}
 PanicOn(t, e, origin, i) ==
   /\ En("unwind") /\ Step
   /\ UserVisible(e) /\ inst[e].thr = t
   /\ (i # NoInst => (UserVisible(i) /\ inst[i].thr = t))
-  /\ (origin = "mock" => reasons < 2) /\ (origin = "clone" => cnt < 3)
+  /\ (origin \in {"mock", "explicit"} => reasons < 2) /\ (origin = "clone" => cnt < 3)
   /\ (origin = "default" => ((\E h \in Ids : Live(h) /\ inst[h].helper /\ inst[h].owner = e) \/ Free # {}))
-  /\ reasons' = IF origin = "mock" THEN reasons + 1 ELSE reasons
+  /\ reasons' = IF origin \in {"mock", "explicit"} THEN reasons + 1 ELSE reasons
   /\ cnt' = IF origin = "clone" THEN cnt + 1 ELSE cnt
   /\ UNCHANGED lends
   /\ LET f0 == IF origin = "default" /\ ~(\E h \in Ids : Live(h) /\ inst[h].helper /\ inst[h].owner = e)
